@@ -341,7 +341,7 @@ enum { Q_write, Q_connect, Q_shutdown, Q_udp_send, Q_fs, Q_work, Q_gai, Q_gni, Q
 static const char* const qname[Q_N] = { "write", "connect", "shutdown", "udp_send", "fs", "work", "getaddrinfo",
                                         "getnameinfo", "random", "close" };
 static int owed[Q_N], got[Q_N];
-static uv_timer_t* wd;
+static uv_timer_t* wd;     /* watchdog: survives bail-outs, closed by the epilogue */
 
 static const char* en(int rc) { static char b[4][32]; static int i; char* p = b[i++ & 3]; if (rc >= 0) { snprintf(p, 32, "%d", rc); return p; } uv_err_name_r(rc, p, 32); return p; }
 
@@ -372,9 +372,9 @@ static void* xalloc(size_t n) { void* p; quiet_depth++; p = calloc(1, n); quiet_
 
 static void close_cb(uv_handle_t* h) { got[Q_close]++; free(h); }
 static void hclose(void* h) { if (h != NULL && !uv_is_closing((uv_handle_t*) h)) { owed[Q_close]++; uv_close((uv_handle_t*) h, close_cb); } }
-static void walk_close(uv_handle_t* h, void* arg) { (void) arg; hclose(h); }
+static void walk_close(uv_handle_t* h, void* arg) { if (arg == NULL && h == (uv_handle_t*) wd) return; hclose(h); }
 static void bail(void) { bailed = 1; if (loop_inited) uv_walk(loop, walk_close, NULL); }
-static void wd_cb(uv_timer_t* t) { (void) t; stalled = 1; OUT("stall"); bail(); }
+static void wd_cb(uv_timer_t* t) { (void) t; stalled = 1; OUT("stall"); bail(); uv_stop(loop); }
 
 extern int __lsan_do_recoverable_leak_check(void) __attribute__((weak));
 static char fdsnap0[8192], fdsnap1[8192];
@@ -439,7 +439,7 @@ static void epilogue(void) {
       OUT("final spare-fd %d", ok);
       if (!ok) VIOL("spare-fd-lost", "loop->emfile_fd=%d after the scenario", loop->emfile_fd);
     }
-    uv_walk(loop, walk_close, NULL);
+    uv_walk(loop, walk_close, loop);
     /* run to completion: poll without blocking (threadpool work may still be in flight) for at most ~3 s */
     for (i = 0; i < 3000; i++) {
       struct timespec ts = { 0, 1000000 };
@@ -913,7 +913,7 @@ static void fp_touch(uv_timer_t* t) {
   fd = (int) RAW(SYS_openat, AT_FDCWD, fp.path, O_WRONLY | O_APPEND | O_CLOEXEC, 0);
   if (fd >= 0) { RAW(SYS_write, fd, "xxxxxxxx", 8); RAW(SYS_close, fd); }
   quiet_depth--;
-  if (++fp.n > 60) { OUT("stall"); stalled = 1; bail(); }
+  if (++fp.n > 60) { OUT("stall"); stalled = 1; bail(); uv_stop(loop); }
 }
 static void sc_fs_poll(void) {
   int fd; char buf[300]; size_t len = sizeof buf;
